@@ -528,9 +528,13 @@ func init() {
 				k = 4
 			}
 			for bp := 0; bp <= 1; bp++ {
-				jobs = append(jobs, Job{Dir: "z80", Harness: "VC08Script", Params: []int{bp, k, 0}, Label: fmt.Sprintf("VC08Script/bp%d/k%d", bp, k), MaxForks: 4096, MaxPaths: 100000})
-				jobs = append(jobs, Job{Dir: "z80", Harness: "VC08Script", Params: []int{bp, k, 1}, Label: fmt.Sprintf("VC08Script/bp%d/k%d/nmi", bp, k), MaxForks: 4096, MaxPaths: 100000})
-				jobs = append(jobs, Job{Dir: "z80", Harness: "VC08Script", Params: []int{bp, k, 2}, Label: fmt.Sprintf("VC08Script/bp%d/k%d/int-any-im", bp, k), MaxForks: 4096, MaxPaths: 100000})
+				k0 := k
+				if bp == 1 && k > 3 {
+					k0 = 3 // arbitrary breakpoint sets multiply the paths
+				}
+				jobs = append(jobs, Job{Dir: "z80", Harness: "VC08Script", Params: []int{bp, k0, 0}, Label: fmt.Sprintf("VC08Script/bp%d/k%d", bp, k0), MaxForks: 4096, MaxPaths: 100000})
+				jobs = append(jobs, Job{Dir: "z80", Harness: "VC08Script", Params: []int{bp, 3, 1}, Label: fmt.Sprintf("VC08Script/bp%d/k3/nmi", bp), MaxForks: 4096, MaxPaths: 100000})
+				jobs = append(jobs, Job{Dir: "z80", Harness: "VC08Script", Params: []int{bp, 3, 2}, Label: fmt.Sprintf("VC08Script/bp%d/k3/int-any-im", bp), MaxForks: 4096, MaxPaths: 100000})
 			}
 			for p := 0; p <= 14; p++ {
 				jobs = append(jobs, Job{Dir: "z80", Harness: "VC08Prog", Params: []int{p}, Label: fmt.Sprintf("VC08Prog/%d", p), MaxForks: 256})
@@ -557,8 +561,9 @@ func init() {
 			for at := -1; at < k; at++ {
 				for bp := 0; bp <= 2; bp++ {
 					kk := k
-					if bp >= 1 && tier != "thorough" {
-						kk = 2 // arbitrary breakpoint sets multiply the paths
+					if bp >= 1 {
+						// arbitrary breakpoint sets multiply the paths: one instruction fewer
+						kk = k - 1
 						if at >= kk {
 							continue
 						}
